@@ -318,6 +318,22 @@ func TestFixedHar(t *testing.T) {
 			{Method: "GET", URL: "https://a.example/", Status: 200, Body: vh.B("duplicate")},
 			{Method: "GET", URL: "https://a.example/bad", Status: 1000, Body: vh.B("x")},
 		}},
+		// b1 and content negotiation: one captured variant only; both variants; a Variants header without Variant-Key
+		{Version: "b1", Primary: 0, Entries: []HarEntry{
+			{Method: "GET", URL: "https://a.example/", Status: 200, Body: vh.B("hello"), ResHeaders: [][2]string{{"Content-Type", "text/html"}, {"Variants", "Accept-Language;en;fr"}, {"Variant-Key", "en"}}},
+			{Method: "GET", URL: "https://a.example/index.html", Status: 200, Body: vh.B("plain"), ResHeaders: [][2]string{{"Content-Type", "text/html"}}},
+		}},
+		{Version: "b1", Primary: 0, Entries: []HarEntry{
+			{Method: "GET", URL: "https://a.example/", Status: 200, Body: vh.B("hello"), ResHeaders: [][2]string{{"Content-Type", "text/html"}, {"Variants", "Accept-Language;en;fr"}, {"Variant-Key", "en"}}},
+			{Method: "GET", URL: "https://a.example/", Status: 200, Body: vh.B("bonjour"), ResHeaders: [][2]string{{"Content-Type", "text/html"}, {"Variants", "Accept-Language;en;fr"}, {"Variant-Key", "fr"}}},
+			{Method: "GET", URL: "https://b.example/img.png", Status: 200, Body: vh.B("png"), ResHeaders: [][2]string{{"Content-Type", "image/png"}}},
+		}},
+		{Version: "b1", Primary: 0, Entries: []HarEntry{
+			{Method: "GET", URL: "https://a.example/index.html", Status: 200, Body: vh.B("x"), ResHeaders: [][2]string{{"Variants", "Accept-Encoding;gzip;br;identity"}}},
+		}},
+		{Version: "b2", Entries: []HarEntry{
+			{Method: "GET", URL: "https://a.example/", Status: 200, Body: vh.B("hello"), ResHeaders: [][2]string{{"Variants", "Accept-Language;en;fr"}, {"Variant-Key", "en"}}},
+		}},
 		{Version: "b1", Primary: 0, Entries: []HarEntry{
 			{Method: "GET", URL: "https://b.example/index.html", Status: 200, Body: vh.B("main"), ResHeaders: [][2]string{{"Content-Type", "text/html"}}},
 			{Method: "GET", URL: "https://b.example/s.css?v=1", Status: 404, Body: vh.B(""), ResHeaders: [][2]string{{"Content-Type", "text/css"}}},
